@@ -35,6 +35,8 @@ type ftObs struct {
 	Acked   []string `json:"acked"`
 	Msg     string   `json:"msg"`
 	Faults  int      `json:"faults"` // number of faults injected in the session (1 or 2)
+	// Reopened: Close returned an error and a Put after it was accepted
+	Reopened bool `json:"reopened"`
 }
 
 var errInjected = errors.New("injected write fault")
